@@ -1,4 +1,5 @@
 import H2T.Props.C02
+import H2T.Lemmas.ConserveTree
 import H2T.Props.C07
 
 /-! # C16 — custom decorators are honoured verbatim and measured by display width
@@ -34,6 +35,12 @@ theorem ol_markers_fit (f : DecoFam) (start : Int) (n i : Nat) (hi : i < n) :
     dispW (padTo ((Deco.ofFam f).olPrefix (olItemNumber start i)) (olPrefixSize (Deco.ofFam f) start n))
       = olPrefixSize (Deco.ofFam f) start n :=
   dispW_padTo _ _ (fam_ok f start n i hi)
+
+/-- **the trivial decorator produces nothing but document text (and whitespace)**: for simple table-free trees the
+    non-whitespace characters of its output are exactly the tree's text -/
+theorem trivial_only_text (cfg : Cfg) (w : Nat) (tree : RNode) (ls : List RLine) (hfn : cfg.footnotes = false)
+    (hs : simpleTree tree = true) (h : renderTree cfg Deco.trivial w tree = .ok ls) : ls.flatMap rink = plainText tree :=
+  H2T.trivial_text_preserved cfg w tree ls hfn hs h
 
 /-- the strings of the family are used verbatim -/
 theorem fam_verbatim (f : DecoFam) :
